@@ -23,6 +23,10 @@ type Result struct {
 	Marks []Mark
 	// ObjNum maps symbolic ids to (number, generation) in the final revision.
 	ObjNum map[string][2]int
+	// ObjMarks holds, per written object (symbolic id; "objstm:<rev>:<k>" and "xref:<rev>" for the containers),
+	// the marks of its serialised body relative to the body's first byte. Together with Layout.Patches they allow
+	// a fault to be applied to one object while every offset of the file stays consistent.
+	ObjMarks map[string][]Mark
 }
 
 type numbering struct {
@@ -35,14 +39,38 @@ type numbering struct {
 type freed struct{ num, gen int }
 
 type writer struct {
-	l     Layout
-	buf   bytes.Buffer
-	marks []Mark
+	l        Layout
+	objMarks map[string][]Mark
+	buf      bytes.Buffer
+	marks    []Mark
 	nb    *numbering
 	eol   string
 }
 
 func (w *writer) mark(off, n int, role string) { w.marks = append(w.marks, Mark{off, n, role}) }
+
+// patched records the body's marks under id and applies the layout's patches for id (from the back, so that
+// earlier offsets stay valid).
+func (w *writer) patched(id string, body []byte, marks []Mark) []byte {
+	if w.objMarks == nil {
+		w.objMarks = map[string][]Mark{}
+	}
+	w.objMarks[id] = marks
+	var ps []Patch
+	for _, p := range w.l.Patches {
+		if p.ID == id && p.Off >= 0 && p.Off+p.Len <= len(body) {
+			ps = append(ps, p)
+		}
+	}
+	sort.SliceStable(ps, func(a, b int) bool { return ps[a].Off > ps[b].Off })
+	for _, p := range ps {
+		nb := make([]byte, 0, len(body)+len(p.New))
+		nb = append(nb, body[:p.Off]...)
+		nb = append(nb, p.New...)
+		body = append(nb, body[p.Off+p.Len:]...)
+	}
+	return body
+}
 
 // ---------------------------------------------------------------------------
 // object serialisation (ISO 32000-1 §7.3)
@@ -328,10 +356,10 @@ func Write(docs []Doc, l Layout) Result {
 				w.mark(b.Len(), len(data), "streamdata")
 				b.Write(data)
 				b.WriteString(w.eol + "endstream")
-				pend = append(pend, pending{o.ID, b.Bytes(), w.marks, true})
+				pend = append(pend, pending{o.ID, w.patched(o.ID, b.Bytes(), w.marks), w.marks, true})
 			default:
 				w.ser(&b, o.Obj, 0, true)
-				pend = append(pend, pending{o.ID, b.Bytes(), w.marks, false})
+				pend = append(pend, pending{o.ID, w.patched(o.ID, b.Bytes(), w.marks), w.marks, false})
 			}
 			w.marks = saved
 		}
@@ -342,7 +370,8 @@ func Write(docs []Doc, l Layout) Result {
 		sort.Strings(lenIDs)
 		for _, id := range lenIDs {
 			sv := strconv.Itoa(lengths[id])
-			pend = append(pend, pending{id, []byte(sv), []Mark{{0, len(sv), "int"}}, false})
+			lm := []Mark{{0, len(sv), "int"}}
+			pend = append(pend, pending{id, w.patched(id, []byte(sv), lm), lm, false})
 		}
 
 		// ---- what changed? ---------------------------------------------------
@@ -471,11 +500,15 @@ func Write(docs []Doc, l Layout) Result {
 				dd := append(append(Dict{}, d...), KV{"Length", Int(len(data))})
 				dd = append(dd, fd...)
 				var b bytes.Buffer
-				w.ser(&b, dd, 0, false)
+				saved := w.marks
+				w.marks = nil
+				w.ser(&b, dd, 0, true)
 				b.WriteString(w.eol + "stream\n")
+				w.mark(b.Len(), len(data), "streamdata")
 				b.Write(data)
 				b.WriteString(w.eol + "endstream")
-				objstms = append(objstms, pending{sid, b.Bytes(), nil, true})
+				objstms = append(objstms, pending{sid, w.patched(sid, b.Bytes(), w.marks), w.marks, true})
+				w.marks = saved
 			}
 		}
 		if w.nb.next > size {
@@ -584,10 +617,19 @@ func Write(docs []Doc, l Layout) Result {
 			head := fmt.Sprintf("%d 0 obj", w.nb.num[xid])
 			w.mark(w.buf.Len(), len(head), "objhead")
 			w.buf.WriteString(head + w.eol)
-			w.ser(&w.buf, d, 0, true)
-			w.buf.WriteString(w.eol + "stream\n")
-			w.mark(w.buf.Len(), len(payload), "streamdata")
-			w.buf.Write(payload)
+			var xb bytes.Buffer
+			savedX := w.marks
+			w.marks = nil
+			w.ser(&xb, d, 0, true)
+			xb.WriteString(w.eol + "stream\n")
+			w.mark(xb.Len(), len(payload), "streamdata")
+			xb.Write(payload)
+			xmarks := w.marks
+			w.marks = savedX
+			for _, m := range xmarks {
+				w.mark(w.buf.Len()+m.Off, m.Len, m.Role)
+			}
+			w.buf.Write(w.patched(xid, xb.Bytes(), xmarks))
 			w.buf.WriteString(w.eol + "endstream" + w.eol + "endobj" + w.eol)
 		} else {
 			sort.Slice(entries, func(a, b int) bool { return entries[a].num < entries[b].num })
@@ -632,7 +674,7 @@ func Write(docs []Doc, l Layout) Result {
 		prevXRef = xrefOff
 	}
 
-	res := Result{Bytes: w.buf.Bytes(), Marks: w.marks, ObjNum: map[string][2]int{}}
+	res := Result{Bytes: w.buf.Bytes(), Marks: w.marks, ObjNum: map[string][2]int{}, ObjMarks: w.objMarks}
 	for id, n := range w.nb.num {
 		res.ObjNum[id] = [2]int{n, w.nb.gen[id]}
 	}
